@@ -457,6 +457,17 @@ def wl_options(ctx, R, tz):
         checks.append(('tzid-default-gettz', [x.tzinfo for x in r] == [ny, ny]))
     r = R.rrulestr('DTSTART;TZID=X/Y:19970902T090000\nRRULE:FREQ=DAILY;COUNT=2', tzids={'X/Y': tz.tzoffset('X/Y', 3600)})
     checks.append(('tzids-mapping', [x.utcoffset() for x in r] == [D.timedelta(hours=1)] * 2))
+    # a TZID the tzids option does not know gives a naive start - whether the option is a callable returning None, a mapping
+    # without the name, or an empty mapping (which is not "option absent")
+    import collections
+    for label, tzids in (('callable-none', lambda name: None), ('mapping-miss', {'Other/Zone': tz.UTC}), ('empty-dict', {}),
+                         ('empty-ordereddict', collections.OrderedDict())):
+        for name in ('UTC', 'America/New_York', 'X/Y'):
+            try:
+                r = R.rrulestr('DTSTART;TZID=%s:19970902T090000\nRRULE:FREQ=DAILY;COUNT=2\nEXDATE;TZID=%s:19970903T090000' % (name, name), tzids=tzids)
+                checks.append(('tzids-unknown-name-' + label, list(r) == [st]))
+            except Exception:
+                checks.append(('tzids-unknown-name-' + label, False))
     # compatible=True implies unfold (and forceset): folded text needs no explicit unfold
     for nl in ('\n', '\r\n'):
         try:
@@ -523,6 +534,9 @@ MALFORMED = [
     'DTSTART:19970902T090000,19970903T090000\nRRULE:FREQ=DAILY;COUNT=2', 'DTSTART:19970902T090000\nRRULE:FREQ=DAILY;COUNT=2\nRDATE;VALUE=DATE:19970902',
     'DTSTART:19970902T090000\nRRULE:FREQ=DAILY;COUNT=2\nEXDATE;FOO=1:19970902T090000', 'DTSTART:notadate\nRRULE:FREQ=DAILY;COUNT=2',
     'DTSTART;TZID=X/Y:19970902T090000Z\nRRULE:FREQ=DAILY;COUNT=2', 'RRULE:FREQ=DAILY;COUNT=2;FREQ', 'DTSTART:19970902T090000Z\nRRULE:FREQ=DAILY;UNTIL=19971224T000000',
+    # ... and the opposite mismatch: naive start, UNTIL in UTC (inline start, start through dtstart=, inside an EXRULE)
+    'DTSTART:19970902T090000\nRRULE:FREQ=DAILY;UNTIL=19970905T090000Z', 'RRULE:FREQ=DAILY;UNTIL=19970905T090000Z',
+    'DTSTART:19970902T090000\nRRULE:FREQ=DAILY;COUNT=3\nEXRULE:FREQ=DAILY;UNTIL=19970905T090000Z',
 ]
 
 
